@@ -422,6 +422,13 @@ func (o *quiesceOp) enabled() bool {
 		if _, isQ := t.pending.(*quiesceOp); isQ {
 			continue
 		}
+		// a timer that waits for the clock does not keep the program busy; one that is due does
+		if tm, isT := t.pending.(*timerOp); isT {
+			if tm.isDue() {
+				return false
+			}
+			continue
+		}
 		if t.pending.enabled() {
 			return false
 		}
